@@ -34,7 +34,7 @@ def run(out, tier, seed):
     out.mc("Collection", "MC_Collection.cfg")
     out.mc("Collection", "MC_Collection_aswritten.cfg", expect="Inv_WellFormed")
     members = ["m1", "z"]
-    depth = 3 if quick else 4
+    depth = 3       # depth 4 exports ~1.5 million histories x 15 start lists: more than the replay pool can hold in memory
     r, hs = tlc.gen_histories("Collection", {"Members": tlc.tla_set(members), "Falsy": tlc.tla_set(["z"]), "MaxLen": "4" if quick else "5",
                                              "Depth": str(depth), "Variant": '"repaired"'})
     out.states += r.distinct; out.transitions += r.generated
@@ -44,7 +44,7 @@ def run(out, tier, seed):
     jobs = []
     for si, st in enumerate(starts):
         for hi, h in enumerate(hs):
-            if quick and (hi * 7 + si) % 15 != 0:
+            if (hi * 7 + si) % (15 if quick else 2) != 0:
                 continue
             # indexes beyond the list are kept: they must raise IndexError
             evs = [{"op": "new", "items": st, "how": ["ctor", "hand"][(hi + si) % 2]}] + h + READS(len(st) + 2, members)
